@@ -22,6 +22,14 @@ impl SrcFile {
   pub fn bytes(&self) -> Vec<u8> {
     match (&self.hex, self.kind.as_str()) {
       (Some(h), _) => (0..h.len() / 2).map(|i| u8::from_str_radix(&h[2 * i..2 * i + 2], 16).unwrap()).collect(),
+      (None, "big_short") => {
+        // more than 3_000_000 bytes but only a few lines: NOT too large by ast-grep's rule
+        let mut v = Vec::with_capacity(3_100_000);
+        v.extend_from_slice(b"console.log(1);\nfoo(1, 2);\n/* ");
+        v.resize(3_000_200, b'x');
+        v.extend_from_slice(b" */\nlet a = 1 == 2;\n");
+        v
+      }
       (None, "oversize") => {
         // > 3_000_000 bytes and > 200_000 lines
         let mut v = Vec::with_capacity(3_300_000);
@@ -208,6 +216,25 @@ pub fn gen_source(rng: &mut Rng, lang: &str) -> String {
   if lang == "Go" {
     s = format!("package main\n\n{s}");
   }
+  if matches!(lang, "TypeScript" | "JavaScript") {
+    // rare textual shapes: a very long line, a byte-order mark, no trailing newline
+    if rng.chance(0.04) {
+      let mut long = String::from("const big = [");
+      for i in 0..rng.range(150, 600) {
+        long.push_str(&format!("{},", i % 10));
+      }
+      long.push_str("0];\nconsole.log(big);\n");
+      s.push_str(&long);
+    }
+    if rng.chance(0.05) {
+      s = format!("\u{feff}{s}");
+    }
+    if rng.chance(0.1) {
+      while s.ends_with('\n') || s.ends_with('\r') {
+        s.pop();
+      }
+    }
+  }
   s
 }
 
@@ -291,7 +318,8 @@ pub fn gen_world(rng: &mut Rng, o: &GenOpts) -> CliWorld {
       match rng.below(8) {
         0 | 1 | 2 => SrcFile { path, text: String::new(), hex: None, kind: "empty".into() },
         3 | 4 => SrcFile { path, text: String::new(), hex: Some("6c657420fffe203d20313b0a".into()), kind: "non_utf8".into() },
-        5 | 6 => SrcFile { path, text: "let a = \u{0}1;\nconsole.log(a);\n".into(), hex: None, kind: "binary".into() },
+        5 => SrcFile { path, text: "let a = \u{0}1;\nconsole.log(a);\n".into(), hex: None, kind: "binary".into() },
+        6 => SrcFile { path, text: String::new(), hex: None, kind: "big_short".into() },
         _ => SrcFile { path, text: String::new(), hex: None, kind: "oversize".into() },
       }
     } else {
